@@ -95,3 +95,28 @@ def check_C08(ctx):
     ctx.assumptions += ["handles below 2^30 (so that 2i+1 is representable as int), as the library assumes silently",
                         "closedness is proved for the model's add_face check and mirrored side; that faces stay closed through later renumbering is "
                         "checked by the lock step + oracle, not yet by a theorem"]
+
+# ------------------------------------------------------------------------------------ kernel family helper
+
+KERNEL_RULE = ("kernel scripts from gen/kgen.py (profiles %s; one SplitMix64 state per script, seeded from VERIF_SEED; meshes built from "
+               "tet/hex fans, strips, blocks, debris; operations aimed at first/last/neighbour-of-last victims, shared sub-entities, every "
+               "deferred x fast x bottom-up-subset cell) plus the corpus of minimised scripts of fixed defects, run in lock step on the "
+               "extracted Gallina model and the library rebuilt from /repo: the full canonical state (definitions, flags, counters, mode flags, "
+               "the three incidence caches WITH order, every property array, return value) is compared after every operation; the impl-side "
+               "oracle %s runs after every step on the real library. distinct_nontrivial = distinct scripts (by text hash) that executed with Ok "
+               "at least one of the operations {%s} on a mesh that already has a cell")
+
+def kernel_property(ctx, pid, prop_v, profiles, relevant_ops, count_quick=60, count_thorough=1500, assumptions=()):
+    fw.regen_leaves(ctx, ["handles"])
+    fw.coq_prove(ctx, prop_v)
+    ke.standard_kernel_check(ctx, pid, profiles, relevant_ops, pid, count_quick=count_quick, count_thorough=count_thorough,
+                             extra_files=replay_scripts(ctx))
+    ctx.cov["rule"] = KERNEL_RULE % ("/".join(profiles), pid, ", ".join(sorted(relevant_ops)))
+    ctx.cov["samples"] += [{"theorem": t} for t in fw.theorem_statements(prop_v, 4)]
+    ctx.assumptions += list(assumptions)
+
+def check_C11(ctx):
+    kernel_property(ctx, "C11", "Props/Properties_C11.v", ["malformed", "valid", "setops"], {"AddE", "AddF", "AddFV", "AddC"},
+                    assumptions=["the add_edge search through the outgoing-halfedge cache is proved under exactness of that cache at the vertex "
+                                 "(C01's invariant); 'valid arguments' = live handles",
+                                 "tetrahedral / hexahedral valence guards are covered under C15 / C16"])
